@@ -617,8 +617,9 @@ func (es *SearchEngineState) VALIDATECALL(id int, returnOffset int) {
 
 func (es *SearchEngineState) CALL(id int, returnOffset int) {
 	es.callStack.Push(CallState{
-		id:           id,
-		returnOffset: returnOffset,
+		id:               id,
+		returnOffset:     returnOffset,
+		startMatchOffset: len(es.currentMatch),
 	})
 }
 
